@@ -25,8 +25,8 @@ CFG = {
             "vertices, degenerate and empty face lists) with any subset of Position/Normal/Color/TexCoord/FDC/Opacity/"
             "Scale/Rotation and 0-3 user-named attributes of dimension 1-4, float32-exact values (dyadic, integers, -0, "
             "1e20, subnormal; colours on k/255 and (k+.5)/255), written with ply.Write, the default table without "
-            "unspecified properties, and custom tables (double/int/uchar types, other recognised spellings, explicit "
-            "writers for user attributes, splat table) in ASCII, little- and big-endian; distinct by mesh+configuration; "
+            "unspecified properties, and custom tables (one explicit writer per attribute x uchar/int/float/double storage x "
+            "recognised spellings or fresh names, values at the limits of each type; splat table) in ASCII, little- and big-endian; distinct by mesh+configuration; "
             "non-trivial = at least one vertex and one attribute",
     "trusted": ["strconv number printing/parsing (ASCII) is outside the model: the harness tokenises the written text "
                 "independently and converts number tokens with strconv",
